@@ -270,6 +270,51 @@ PROPS = {
     "C16": dict(level="exploration", functions=[], lemmas=[], tierb=True),
     "C17": dict(level="exploration", functions=[], lemmas=[], tierb=True),
     "C18": dict(level="exploration", functions=[], lemmas=[], tierb=True),
-    "C19": dict(level="exploration", functions=[], lemmas=[], tierb=True),
+    "C19": dict(
+        level="proof",
+        functions=["GeneralInstanceGenerator.generate", "GeneralInstanceGenerator.create_random_operation",
+                   "GeneralInstanceGenerator._choose_one_machine", "GeneralInstanceGenerator._choose_multiple_machines",
+                   "GeneralInstanceGenerator.__init__", "InstanceGenerator.__init__", "InstanceGenerator._next_name",
+                   "InstanceGenerator.__iter__", "InstanceGenerator.__next__", "InstanceGenerator.__len__",
+                   "InstanceGenerator.max_num_jobs", "InstanceGenerator.min_num_jobs",
+                   "InstanceGenerator.max_num_machines", "InstanceGenerator.min_num_machines",
+                   "Operation.__init__", "Operation.__init__$list",
+                   "JobShopInstance.__init__", "JobShopInstance.set_operation_attributes"],
+        lemmas=[],
+        tierb=True,
+        trusted=["random.seed / random.randint / random.choice through the contracts of pyvc/library.py: the global generator "
+                 "is a deterministic state machine (RngSeed, RngNext) whose draws are functions of the state with "
+                 "a <= randint(a, b) <= b (ValueError when a > b) and choice(seq) = seq[i], 0 <= i < len(seq) (IndexError "
+                 "when empty); one abstract step per call",
+                 "str(int) is injective and an f-string is determined by the values formatted into it (names "
+                 "`{suffix}_{counter}` differ when the counters differ)",
+                 "InstanceGenerator.generate (abstract method) is used by __next__ through an abstract contract that "
+                 "GeneralInstanceGenerator.generate's contract implies (same frame, stronger post-condition)",
+                 "ghost witnesses ($$visit: machine -> position in the job; $$pidx / $$used inside the loops; $rmw index of "
+                 "the removed pool element; $gj / $gp inverse maps of the new operations; $$cumL prefix sums of the new "
+                 "instance, introduced by their recursive definition when the object is created)"],
+        assumptions=["the request is satisfiable (pre-condition of generate, otherwise random.randint raises ValueError / "
+                     "random.choice IndexError, and no instance is produced): duration range and the effective job / machine "
+                     "ranges are not empty, counts are >= 0, and with several machines per operation the upper bound does not "
+                     "exceed the machine count",
+                     "proved, for every state of the random generator: job count within the requested range (raised to the "
+                     "minimum machine count when fewer jobs than machines are disallowed) or as given; every job has exactly M "
+                     "operations, M within the machine range (capped by the job count when fewer jobs are disallowed) or as "
+                     "given, J >= M in that mode (ValidationError exactly when both are given and J < M); durations within "
+                     "range; with several machines per operation each operation has k distinct machine ids below M, k within "
+                     "the requested range, the first one drawn from the WHOLE pool of M machines; with one machine per "
+                     "operation the id is below M and drawn from the whole remaining pool; without recirculation every job uses "
+                     "every machine (ghost witness; with M operations per job: exactly once); operations numbered; the "
+                     "constructor seeds the global generator with the given seed whenever one is given (0 included) and leaves "
+                     "it alone otherwise; _next_name advances the counter by one and formats the NEW counter; __iter__ changes "
+                     "nothing but the iteration counter (frame); __next__ raises StopIteration iff the limit is reached and "
+                     "otherwise yields one instance and advances the iteration counter by one; __len__ is the limit",
+                     "bounded only: `two generators with the same seed produce identical sequences` as a whole (the proof "
+                     "gives: seeded state is a function of the seed, every draw is a function of the state; the composition "
+                     "over a whole generate() call -- a relational property -- is exercised by the bounded run), "
+                     "`iteration yields exactly the configured number` as a count over a whole loop (arithmetic over the "
+                     "per-call contracts), the `available_machines=None` default of create_random_operation, module-level "
+                     "state shared between generator objects (a field the sidecar does not declare is drift)"],
+    ),
     "C20": dict(level="exploration", functions=[], lemmas=[], tierb=True),
 }
